@@ -42,6 +42,12 @@ Proof.
 Qed.
 Print Assumptions C02_holds.
 
+(* the driver reports for every evaluated case whether it satisfies the hypotheses of the theorems
+   (flag `covered` of Tftp.Entries.tftp_entry): where the flag is 1 the theorem above applies *)
+Theorem C02_covered_cases : forall c, validb c = true -> holds c (run_transfer_case c) = [].
+Proof. intros c H. apply C02_holds. apply validb_valid. exact H. Qed.
+Print Assumptions C02_covered_cases.
+
 (* the behaviour before the repair of D1 (retry exhaustion fell through) violates the property:
    a silent client is sent the next packet without having acknowledged anything *)
 Definition d1_case : tcase :=
